@@ -139,10 +139,10 @@ def observe(at, s, c):
     return "accepted", x, characs, ""
 
 
-def run(prop, tier):
+def run(prop, tier, only=None, V=None):
     t0 = time.time()
     at = C.quiet_atomica()
-    V = C.Verdict(prop)
+    V = V or C.Verdict(prop)
     thorough = tier == "thorough"
     fg = "{<<One, One>>, <<<<2,1>>, <<1,2>>>>, <<<<1,2>>, <<3,1>>>>, <<<<3,2>>, <<3,2>>>>}" if thorough else "{<<One, One>>, <<<<2,1>>, <<3,2>>>>}"
     mc = "---- MODULE MCInitSolve ----\nEXTENDS InitSolve\nMCFactorGrid == %s\nMCSolGrid == {<<k,1>> : k \\in 0..5}\n====\n" % fg
@@ -157,6 +157,8 @@ def run(prop, tier):
     nchar = 0
     for c0 in cases:
         s = byid[c0["s"]]
+        if only and s["id"] not in only:
+            continue
         outcome, x, characs, err = observe(at, s, c0["case"])
         outcomes[outcome] = outcomes.get(outcome, 0) + 1
         if outcome == "refused" and c0["solvable"]:
@@ -184,6 +186,6 @@ def run(prop, tier):
     cov["characteristic_records"] = nchar
     for rid_, clause in bad:
         d = index[rid_]
-        V.violation("C07 %s structure=%s%s" % (clause, d["structure"], (" " + d["error"].split(":")[0]) if d.get("error") else ""), dict(clause=clause, **d))
+        V.violation("%s %s structure=%s%s" % (prop, clause, d["structure"], (" " + d["error"].split(":")[0]) if d.get("error") else ""), dict(clause=clause, **d))
     cov["samples"] = [cases[0], cases[len(cases) // 2]]
     return V, cov, time.time() - t0
